@@ -442,7 +442,7 @@ type asyncPool struct {
 	time time.Duration
 }
 
-func newAsyncPool(n int, bin string, timeoutMS int) *asyncPool {
+func newAsyncPool(n int, bin string, timeoutMS int, nra bool) *asyncPool {
 	p := &asyncPool{jobs: make(chan *asyncJob, 4096)}
 	for i := 0; i < n; i++ {
 		p.wg.Add(1)
@@ -464,6 +464,7 @@ func newAsyncPool(n int, bin string, timeoutMS int) *asyncPool {
 			for job := range p.jobs {
 				if solver == nil {
 					solver = NewSolver(bin, timeoutMS)
+					solver.nra = nra
 				}
 				job.done <- runAsyncJob(solver, job)
 				if solver.sinceRestart > 200 {
